@@ -246,7 +246,20 @@ def run(ctx):
         seen_w.add(cls)
         idx = [mk for mk in sk.markers if mk.elem == prog.qn("c:idx") and mk.attr == "val" and mk.hole is not None]
         order = [mk for mk in sk.markers if mk.elem == prog.qn("c:order") and mk.attr == "val" and mk.hole is not None]
-        srcs = {mk.hole.src for mk in idx} | {mk.hole.src for mk in order}
+        def _src(h):
+            """`series.index` whatever the loop variable over the chart data is called"""
+            e = h.expr
+            if isinstance(e, ast.Attribute) and e.attr == "index" and isinstance(e.value, ast.Name) and h.fc is not None and h.fc.fn is not None:
+                from sa.itersrc import source_of as _so
+
+                for n_ in ast.walk(h.fc.fn.node):
+                    if isinstance(n_, (ast.For, ast.comprehension)) and any(isinstance(x, ast.Name) and x.id == e.value.id for x in ast.walk(n_.target)):
+                        it_ = n_.iter.args[0] if isinstance(n_.iter, ast.Call) and dotted(n_.iter.func) == "enumerate" and n_.iter.args else n_.iter
+                        if _so(h.fc.fn.node, it_, prog, h.fc.fn)["terminal"] == "self._chart_data":
+                            return "series.index"
+            return h.src
+
+        srcs = {_src(mk.hole) for mk in idx} | {_src(mk.hole) for mk in order}
         lit_idx = [n for n in sk.elems() if n.tag in (prog.qn("c:idx"), prog.qn("c:order")) and n.parent is not None
                    and _enclosing(n).tag == prog.qn("c:ser")]
         single = not idx and not order and lit_idx and all(n.attrs.get("val") == "0" for n in lit_idx) and not any(
